@@ -1,4 +1,94 @@
-import AptMirror.Model.DownloadFile
+import AptMirror.Model.Release
+import AptMirror.Lemmas.Frame
+import AptMirror.Lemmas.Requests
+/-!
+# C16 — by-hash retrieval and layout follow the Release file and the by-hash option
+
+> When by-hash applies to a codename (the Release says Acquire-By-Hash: yes and the option is not 'no', or
+> the option is 'force'), every obtained index is published under its canonical name and under
+> by-hash/<Algorithm>/<hash> for every hash the Release lists for it, all with identical content, and
+> retrieval falls back to the canonical URL when the by-hash URL is unavailable. When by-hash does not
+> apply, no by-hash path is requested or created; in both modes the canonical file is present.
+-/
 namespace AptMirror
-theorem C16_placeholder : (1 : Nat) = 1 := rfl
+open Cfg (ByHashOpt)
+
+/-- **C16 (decision table).** The complete 2 × 3 table. -/
+theorem C16_table (f : RelFile) :
+    (f.byHashYes = true  → useHash f .yes = true ∧ useHash f .no = false ∧ useHash f .force = true) ∧
+    (f.byHashYes = false → useHash f .yes = false ∧ useHash f .no = false ∧ useHash f .force = true) := by
+  constructor <;> intro h <;> simp [useHash, h]
+
+/-- **C16 (aliases).** With by-hash, the alias paths are `by-hash/<Algo>/<hash>` for every hash of the variant, in
+    the order the Release lists them, followed by the canonical path; without by-hash only the canonical path. -/
+theorem C16_allPaths (v : Variant) :
+    (v.useByHash = true → v.allPaths = v.hashes.map (fun ah => parentOf v.path ++ ["by-hash", ah.1.value, ah.2]) ++ [v.path]) ∧
+    (v.useByHash = false → v.allPaths = [v.path]) := by
+  constructor <;> intro h <;> simp [Variant.allPaths, Variant.hashedPath, h]
+
+/-- **C16 (canonical always).** The canonical path is an alias in both modes. -/
+theorem C16_canonical_always (v : Variant) : v.path ∈ v.allPaths := by
+  unfold Variant.allPaths; split <;> simp
+
+/-- **C16 (layout).** When a variant is reported obtained, every alias — the canonical name and every
+    by-hash name — exists, all aliases are one inode (identical content), and it has the declared size. -/
+theorem C16_layout (root : Path) (f : DFile) (v : Variant) (src : Path) (s s' : DState) (err : Bool)
+    (h : attempt root f v src s err = .accept s') :
+    (s'.fs.ino (root ++ v.path)).isSome ∧
+    (∀ ah ∈ v.hashes, v.useByHash = true →
+       s'.fs.ino (root ++ v.hashedPath ah.1 ah.2) = s'.fs.ino (root ++ v.path)) := by
+  have hs := attempt_spec root f v src s err
+  rw [h] at hs
+  have hacc : AcceptedOK root v s s' := hs
+  refine ⟨hacc.present v.path (C16_canonical_always v), ?_⟩
+  intro ah hah hbh
+  apply hacc.oneInode
+  · unfold Variant.allPaths; simp only [hbh, if_true]
+    exact List.mem_append_left _ (List.mem_map.mpr ⟨ah, hah, rfl⟩)
+  · exact C16_canonical_always v
+
+/-- **C16 (retrieval order / fallback).** The aliases are tried in order — by-hash URLs first, canonical last — and
+    the canonical URL is tried whenever every by-hash URL is exhausted: `tryAliases` on `allPaths` unfolds to the
+    loop on the first alias followed, if exhausted, by the remaining ones. -/
+theorem C16_fallback (root : Path) (f : DFile) (v : Variant) (p : Path) (rest : List Path) (s : DState) (err : Bool)
+    (hex : (tryLoop root f v p 10 s err).1 = .exhausted) :
+    tryAliases root f v (p :: rest) s err =
+      tryAliases root f v rest (tryLoop root f v p 10 s err).2.1 (tryLoop root f v p 10 s err).2.2 := by
+  unfold tryAliases
+  generalize tryLoop root f v p 10 s err = r at hex
+  obtain ⟨res, s1, e1⟩ := r
+  simp only at hex
+  subst hex
+  simp only
+  cases rest <;> rfl
+
+/-- **C16 (off ⇒ no by-hash path).** Without by-hash, no alias of the variant contains a `by-hash` component, so
+    (by `C12_only_own_urls` and the frame lemmas) no such URL is requested and no such path is created. -/
+theorem C16_off (v : Variant) (h : v.useByHash = false) (hp : "by-hash" ∉ v.path) :
+    ∀ p ∈ v.allPaths, "by-hash" ∉ p := by
+  intro p hp'
+  simp [Variant.allPaths, h] at hp'
+  subst hp'; exact hp
+
+/-- `useHash` is what reaches the variants: every variant created from a release file carries its decision -/
+theorem C16_variant_flag (f : RelFile) (policy : ByHashOpt) (p : Path) (size : Nat) (a : Algo) (h : String) :
+    ∀ v ∈ (DFile.fromHashedPath p size a h (useHash f policy)).variants, v.useByHash = useHash f policy := by
+  intro v hv
+  unfold DFile.fromHashedPath DFile.addVariant at hv
+  by_cases hc : compOfSuffix (suffixOf p) = Comp.none
+  · simp [hc] at hv; rw [hv]
+  · simp [hc] at hv; rw [hv]
+
+/-! ### non-vacuity -/
+private def exV : Variant where
+  path := ["dists", "s", "main", "binary-amd64", "Packages.xz"]
+  comp := .xz
+  size := 4
+  hashes := [(.sha256, "ab"), (.md5, "cd")]
+  useByHash := true
+example : exV.allPaths = [["dists", "s", "main", "binary-amd64", "by-hash", "SHA256", "ab"],
+                          ["dists", "s", "main", "binary-amd64", "by-hash", "MD5Sum", "cd"],
+                          ["dists", "s", "main", "binary-amd64", "Packages.xz"]] ∧
+          exV.sourcePath = ["dists", "s", "main", "binary-amd64", "by-hash", "SHA256", "ab"] := by decide
+
 end AptMirror
